@@ -94,15 +94,32 @@ func (c Compressor) DecompressWithLength(source io.Reader, dest io.Writer) error
 		}
 		return nil
 	}
-	return c.Decompress(source, dest)
+	if compressedMessage, err := bufferFromReader(source); err != nil {
+		return fmt.Errorf("cannot read compressed message: %w", err)
+	} else if uint64(decompressedLength) > uint64(len(compressedMessage))*maxCompressionRatio {
+		return fmt.Errorf("invalid decompressed length: %d", decompressedLength)
+	} else {
+		// the decompressed length is known: allocate a destination buffer of exactly that length
+		decompressedMessage := make([]byte, decompressedLength)
+		if written, err := lz4.UncompressBlock(compressedMessage, decompressedMessage); err != nil {
+			return fmt.Errorf("cannot decompress message: %w", err)
+		} else if _, err := dest.Write(decompressedMessage[:written]); err != nil {
+			return fmt.Errorf("cannot write decompressed message: %w", err)
+		}
+		return nil
+	}
 }
+
+// maxCompressionRatio is an upper bound of the compression ratio that LZ4 can achieve: each compressed byte expands to
+// at most 255 decompressed bytes.
+const maxCompressionRatio = 255
 
 func decompress(source []byte) (dest []byte, err error) {
 	// try destination buffers of increased length to avoid allocating too much space, starting with twice the
-	// compressed length and up to eight times the compressed length
+	// compressed length and up to the maximum compression ratio that LZ4 can achieve
 	compressedLength := len(source)
 	var written int
-	for i := compressedLength * 2; i <= compressedLength*8; i *= 2 {
+	for i := compressedLength * 2; i < compressedLength*maxCompressionRatio*2; i *= 2 {
 		dest = make([]byte, i)
 		if written, err = lz4.UncompressBlock(source, dest); err == nil {
 			break
